@@ -206,9 +206,18 @@ CLAIMED["C03"] = (
     "mechanically.",
     _NOTE, "DESIGN.md section 5, C03")
 
-for _p in ["C10"]:
-    NOT_APPLICABLE[_p] = ("check under construction in this revision (see "
-                          "DESIGN.md for the planned static rule)")
+CLAIMED["C10"] = (
+    "dispatch-relation refusal set; path rules for the non-smoothness gates; "
+    "right-hand side of every table row and rule branch abstracted into an exact "
+    "rational-function normal form (ast only) and compared with reference "
+    "derivative formulas under the branch's assumptions",
+    "Each differentiation rule is one algebraic identity decided exactly for "
+    "all operands (algebraic rearrangements of a correct rule are accepted); "
+    "which node types are differentiated at all and under which setting "
+    "non-smooth functions are admitted is decided from the dispatch relation "
+    "and path conditions. Domains and user-supplied function maps are declined.",
+    _NOTE, "DESIGN.md section 5, C10")
+
 NOT_APPLICABLE["C18"] = (
     "every clause is an arithmetic identity over blade bit-patterns and metric "
     "values; no structural necessary condition short of matching the exact "
